@@ -238,7 +238,12 @@ class PolicyFile:
     """file-like object over bytes with a short-read policy: read(n) at position p returns at most policy(p, n)"""
 
     def __init__(self, content, policy):
-        self.content, self.policy, self.pos, self.closed = content, policy, 0, False
+        # `content` may be a one-element list (a box): the harness can then replace the bytes while a handle is open
+        self._src, self.policy, self.pos, self.closed = content, policy, 0, False
+
+    @property
+    def content(self):
+        return self._src[0] if isinstance(self._src, list) else self._src
 
     def tell(self):
         return self.pos
@@ -302,7 +307,7 @@ def make_mem_si(files):
             if ent is None:
                 return SFTP_NO_SUCH_FILE
             a = SFTPAttributes()
-            a.st_size = len(ent[0])
+            a.st_size = len(ent[0][0] if isinstance(ent[0], list) else ent[0])
             return a
 
         lstat = stat
